@@ -209,14 +209,14 @@ func (resp *Response) IsBodyStream() bool {
 func (resp *Response) SetBodyStream(bodyStream io.Reader, bodySize int) {
 	resp.ResetBody()
 	resp.bodyStream = bodyStream
-	resp.Header.SetContentLength(bodySize)
+	resp.Header.setBodyStreamLength(bodySize)
 }
 
 // SetBodyStreamNoReset is almost the same as SetBodyStream,
 // but it doesn't reset the bodyStream before.
 func (resp *Response) SetBodyStreamNoReset(bodyStream io.Reader, bodySize int) {
 	resp.bodyStream = bodyStream
-	resp.Header.SetContentLength(bodySize)
+	resp.Header.setBodyStreamLength(bodySize)
 }
 
 // BodyE returns response body.
